@@ -28,10 +28,14 @@ func init() {
 			{ID: "R05.2", Template: "T-WIDTH", Text: "amd64 vector-shift lowerings mask the count with lane-bits − 1", Min: 3},
 			{ID: "R05.3", Template: "T-SIBLING", Text: "integer division and trapping truncation raise the same set of trap kinds in the interpreter, amd64 and arm64", Min: 5},
 			{ID: "R05.5", Template: "T-WIDTH", Text: "SSA passes apply a width-derived shift-count modulus to scalar shifts only", Min: 1},
+			{ID: "R05.6", Template: "T-SIBLING", Text: "condition-code mappings of the backends (negation, operand swap) are involutions", Min: 1},
+			{ID: "R05.7", Template: "T-CONSULT", Text: "code looking inside an extension instruction consults its signedness", Min: 2},
 			{ID: "R05.4", Template: "T-WHOCALLS", Text: "float rounding/min/max arms use the WasmCompat helper of their width, never the math package's versions", Min: 10},
 		},
 		Run: runC05,
 		Controls: []core.Control{
+			{Name: "cond-invert-entry-copied", File: "internal/engine/wazevo/backend/isa/amd64/cond.go", Old: "\tcase condNL:\n\t\treturn condL\n", New: "\tcase condNL:\n\t\treturn condLE\n", Rule: "R05.6", Substr: "involution"},
+			{Name: "mask-of-any-extend-is-nop", File: "internal/engine/wazevo/ssa/pass.go", Old: "\t\t\t\t\tif v == 0 {\n\t\t\t\t\t\tb.alias(cur.Return(), x)\n\t\t\t\t\t}\n\t\t\t\t}\n", New: "\t\t\t\t\tif v == 0 {\n\t\t\t\t\t\tb.alias(cur.Return(), x)\n\t\t\t\t\t}\n\t\t\t\t}\n\t\t\tcase OpcodeBand:\n\t\t\t\tx, mask := cur.Arg2()\n\t\t\t\text, k := b.InstructionOfValue(x), b.InstructionOfValue(mask)\n\t\t\t\tif ext == nil || k == nil || !k.Constant() {\n\t\t\t\t\tcontinue\n\t\t\t\t}\n\t\t\t\tif op := ext.Opcode(); op == OpcodeUExtend || op == OpcodeSExtend {\n\t\t\t\t\tif from, _, _ := ext.ExtendData(); k.ConstantVal() == uint64(1)<<from-1 {\n\t\t\t\t\t\tb.alias(cur.Return(), x)\n\t\t\t\t\t}\n\t\t\t\t}\n", Rule: "R05.7", Substr: "signedness"},
 			{Name: "i32-shl-without-modulo", File: "internal/engine/interpreter/interpreter.go", Old: "ce.pushValue(uint64(uint32(v1) << (uint32(v2) % 32)))", New: "ce.pushValue(uint64(uint32(v1) << uint32(v2)))", Rule: "R05.1", Substr: "operationKindShl"},
 			{Name: "i64-shr-modulo-32", File: "internal/engine/interpreter/interpreter.go", Old: "ce.pushValue(v1 >> (v2 % 64))", New: "ce.pushValue(v1 >> (v2 % 32))", Rule: "R05.1", Substr: "operationKindShr"},
 			{Name: "v128-shl-i16-modulo-8", File: "internal/engine/interpreter/interpreter.go", Old: "\t\t\tcase shapeI16x8:\n\t\t\t\ts = s % 16\n\t\t\t\tlo = uint64(uint16(lo<<s)) |", New: "\t\t\tcase shapeI16x8:\n\t\t\t\ts = s % 8\n\t\t\t\tlo = uint64(uint16(lo<<s)) |", Rule: "R05.1", Substr: "V128Shl"},
@@ -45,6 +49,8 @@ func init() {
 }
 
 func runC05(c *core.Ctx) {
+	checkCondMapsAreInvolutions(c)
+	checkExtendSignednessConsulted(c)
 	ip := c.Pkg("internal/engine/interpreter")
 	if ip == nil {
 		c.Undecided("R05.1", "interpreter", 0, "package not loaded")
